@@ -21,9 +21,27 @@ def run(ctx):
     def per_case(case, res):
         if res["status"] == "ok":
             fp.oracle_c01(ctx, interp, case, res)
+            if ctx.rng.random() < 0.12 and not res.get("policy"):
+                # the large-model serialisation (threshold lowered by the hook) is a path of quantize() like any other: its result must
+                # be a well-formed, loadable model too
+                import copy, os
+                os.environ["AI_EDGE_QUANTIZER_VERIF_LARGE_MODEL_THRESHOLD"] = "0"
+                try:
+                    big = bytes(res["q"].quantize(copy.deepcopy(res.get("cr"))).quantized_model)
+                except Exception as e:  # noqa: BLE001
+                    ctx.fail(f"quantize() raises {type(e).__name__} on the large-model path where the ordinary path returns a model", case.replay(), "large-path-raises")
+                    return
+                finally:
+                    os.environ.pop("AI_EDGE_QUANTIZER_VERIF_LARGE_MODEL_THRESHOLD", None)
+                ctx.tag("large_path_result_checked")
+                fp.oracle_c01(ctx, interp, case, dict(res, out=big))
+
+    def gen(rng, i):
+        # weights tied within and across subgraphs (incl. one NAME used in two subgraphs, which the library must refuse) every tenth case
+        return fp.gen_tied_case(rng, i) if i % 10 == 3 else fp.gen_case(rng, i)
     # graph stage (instructions + performer on abstract parameter classes) AND the whole pipeline (bit-exact output, WF.modelOK /
     # skeleton evaluated on the model's own output, NF membership) are compared with the Lean model on every case
-    fp.explore(ctx, drv, 600 if ctx.tier == "quick" else 4000, per_case, graph_corr=True, pipe_corr=True)
+    fp.explore(ctx, drv, 600 if ctx.tier == "quick" else 4000, per_case, gen=gen, graph_corr=True, pipe_corr=True)
     interp.close()
     drv.close()
     return common.finish(ctx)
